@@ -192,10 +192,10 @@ Definition check_step (k : track) (o : op) (ob : obsrec) : Z :=
   let wf := k_wf k && op_wf o in
   let env := k_env k && (negb (is_env_op o) || inv_okb ls) in
   first_nz [
-    chk (forallb (fun t => free_eqb (ledger_of ls t)) type_ids) 1;
+    chk (negb wf || forallb (fun t => free_eqb (ledger_of ls t)) type_ids) 1;
     chk (negb wf || forallb (fun t => used_eq_sumb (ledger_of ls t)) type_ids) 2;
     chk (negb (wf && env) || inv_okb ls) 3;
-    match o with OSchedule _ rq => check_schedule k rq out | _ => 0 end;
+    (if wf then match o with OSchedule _ rq => check_schedule k rq out | _ => 0 end else 0);
     chk (negb (is_frame o (o_code out)) || ledgers_eqb (k_prev k) ls) 6
   ].
 Definition next_track (k : track) (o : op) (ob : obsrec) : track :=
@@ -215,8 +215,9 @@ Fixpoint prop_from (k : track) (ops : list op) (obs : list obsrec) : Z :=
 Definition prop_code (ops : list op) (obs : list obsrec) : Z := prop_from init_track ops obs.
 
 (* ================================================================== non-triviality rule *)
-(* a history is non-trivial when a pod is actually granted devices while another pod already
-   holds some, and some pod's devices are released afterwards *)
+(* a history is non-trivial when all environment data are well-formed (so that every clause of
+   the decision procedure is active to the end), at least two scheduling attempts are granted
+   devices and at least one bound pod is released *)
 Fixpoint count_if {A} (p : A -> bool) (l : list A) : nat :=
   match l with [] => O | x :: t => (if p x then 1 else 0) + count_if p t end.
 Definition granted (ob : obsrec) : bool :=
@@ -228,4 +229,4 @@ Definition nontrivial (ops : list op) : bool :=
                                       | OUnreserve _ | OPodDelete _ | OPodTerminated _ =>
                                           o_code (fst (snd x)) =? 0
                                       | _ => false end) obs in
-  Nat.leb 2 grants && Nat.leb 1 releases.
+  forallb op_wf ops && Nat.leb 2 grants && Nat.leb 1 releases.
